@@ -21,4 +21,4 @@ MANIFEST = {
 }
 
 def run(ctx):
-    loopsim.drive(ctx, "C02", ["UvModel.Props.C02"], ["C02", "C02", "C02", "C01"], 260, 6000)
+    loopsim.drive(ctx, "C02", ["UvModel.Props.C02"], ["C02", "C02", "C02", "C01"], 900, 12000)
